@@ -401,6 +401,174 @@ theorem exact (src : Src) (ns : List Nat) :
   rw [view_new] at b
   exact ⟨_, b, rfl, rfl, a, by rw [ho]; simp only [List.nil_append]; rfl⟩
 
+/-! ### progress: a Read with a non-empty buffer returns data or an error -/
+
+theorem readLoop_progress : ∀ (fuel : Nat) (s : MR) (n : Nat), s.rest.length + 2 ≤ fuel →
+    (MR.readLoop fuel s (n + 1)).1.err = none → (MR.readLoop fuel s (n + 1)).2 ≠ [] := by
+  intro fuel
+  induction fuel with
+  | zero => intro s n hf; omega
+  | succ fuel ih =>
+    intro s n hfuel he
+    unfold MR.readLoop at he ⊢
+    by_cases hb : s.buf ≠ []
+    · rw [if_pos hb]
+      cases hbb : s.buf with
+      | nil => exact absurd hbb hb
+      | cons b bs => simp
+    · rw [if_neg hb] at he ⊢
+      by_cases hf : s.final ≠ .fnil
+      · rw [if_pos hf] at he; simp at he
+      · rw [if_neg hf] at he ⊢
+        cases hd : s.decodeStep.2 with
+        | some e => simp only [hd] at he; simp at he
+        | none =>
+          simp only [hd] at he ⊢
+          refine ih s.decodeStep.1 n ?_ he
+          -- the step accepted a block: the input got shorter
+          unfold MR.decodeStep at hd ⊢
+          by_cases hr : s.rdNil = true
+          · simp [hr] at hd
+          · have hr' : s.rdNil = false := by simpa using hr
+            simp only [hr', Bool.false_eq_true, if_false] at hd ⊢
+            cases hdb : decodeBlock s.rest with
+            | error e =>
+              rw [hdb] at hd
+              cases e <;> simp at hd
+            | ok blk =>
+              obtain ⟨c1, _, c3⟩ := decodeBlock_ok_facts s.rest blk hdb
+              simp only [List.length_drop]
+              omega
+
+theorem read_progress (s : MR) (n : Nat) (h : (s.read (n + 1)).2.2 = none) : (s.read (n + 1)).2.1 ≠ [] := by
+  have he : s.err = none := by
+    cases he : s.err with
+    | none => rfl
+    | some e => rw [read_latched s _ e he] at h; cases h
+  have : s.read (n + 1) = ({ (MR.readLoop (s.rest.length + 2) s (n + 1)).1 with
+      outOff := (MR.readLoop (s.rest.length + 2) s (n + 1)).1.outOff + (MR.readLoop (s.rest.length + 2) s (n + 1)).2.length },
+      (MR.readLoop (s.rest.length + 2) s (n + 1)).2, (MR.readLoop (s.rest.length + 2) s (n + 1)).1.err) := by
+    simp [MR.read, he]
+  rw [this] at h ⊢
+  exact readLoop_progress _ s n (Nat.le_refl _) h
+
+theorem decodeAll_payload_prefix : ∀ (fuel : Nat) (bits : Bits) (acc d : Decoded),
+    decodeAll fuel bits acc = .ok d → acc.payload <+: d.payload := by
+  intro fuel
+  induction fuel with
+  | zero => intro bits acc d h; simp only [decodeAll, Except.ok.injEq] at h; subst h; exact List.prefix_refl _
+  | succ fuel ih =>
+    intro bits acc d h
+    cases hd : decodeBlock bits with
+    | error e =>
+      cases e <;> simp only [decodeAll, hd] at h
+      · simp only [Except.ok.injEq] at h; subst h; exact List.prefix_refl _
+      · cases h
+      · cases h
+    | ok blk =>
+      simp only [decodeAll, hd] at h
+      split at h
+      · simp only [Except.ok.injEq] at h; subst h; exact List.prefix_append _ _
+      · exact List.IsPrefix.trans (List.prefix_append _ _) (ih _ _ _ h)
+
+theorem view_prefix (s : MR) (del : List UInt8) (d : Decoded) (h : view s del = .ok d) : del <+: d.payload := by
+  unfold view at h
+  split at h
+  · simp only [Except.ok.injEq] at h; subst h; exact List.prefix_append _ _
+  · exact List.IsPrefix.trans (List.prefix_append _ _) (decodeAll_payload_prefix _ _ _ _ h)
+
+/-- while no Read of positive length has failed, every one of them delivered a byte. -/
+theorem run_reads_progress : ∀ (ns : List Nat) (s : MR), (∀ n ∈ ns, 0 < n) →
+    (MR.run s (ns.map .read)).1.err = none → ns.length ≤ (dataOf (MR.run s (ns.map .read)).2).length := by
+  intro ns
+  induction ns with
+  | nil => intro s _ _; simp
+  | cons n ns ih =>
+    intro s hpos he
+    obtain ⟨e1, e2⟩ := run_reads_cons s n ns
+    rw [e1] at he
+    rw [e2]
+    cases h1 : (s.read n).2.2 with
+    | some e =>
+      have := read_err_state s n
+      rw [h1] at this
+      rw [reads_latched _ e this] at he
+      rw [this] at he; cases he
+    | none =>
+      obtain ⟨m, rfl⟩ : ∃ m, n = m + 1 := ⟨n - 1, by have := hpos n (List.mem_cons_self ..); omega⟩
+      have hp := read_progress s m h1
+      have hl : 0 < (s.read (m + 1)).2.1.length := List.length_pos_iff.2 hp
+      have := ih (s.read (m + 1)).1 (fun k hk => hpos k (List.mem_cons_of_mem _ hk)) he
+      simp only [List.length_cons, List.length_append]
+      omega
+
+theorem run_reads_done : ∀ (ns : List Nat) (s : MR), (MR.run s (ns.map .read)).1.done = s.done := by
+  intro ns
+  induction ns with
+  | nil => intro s; rfl
+  | cons n ns ih =>
+    intro s
+    rw [(run_reads_cons s n ns).1, ih]
+    unfold MR.read
+    by_cases h0 : s.err ≠ none
+    · simp [h0]
+    · have h' : s.err = none := by simpa using h0
+      by_cases hn : n = 0
+      · simp [h', hn]
+      · simp only [h', hn, ne_eq, not_true_eq_false, if_false]
+        exact (readLoop_frame _ s n).1
+
+/-- **totality**: over a source without a fault whose input the codec accepts, every schedule
+    of more than `payload.length` Reads with non-empty buffers ends with io.EOF. -/
+theorem reads_reach_eof (data : List UInt8) (d : Decoded) (hd : decode data = .ok d) (ns : List Nat)
+    (hpos : ∀ n ∈ ns, 0 < n) (hlen : d.payload.length < ns.length) :
+    (MR.run (newMR { data := data }) (ns.map .read)).1.err = some .eof := by
+  have sp := run_reads_spec (Bits.ofBytes data) ns (newMR { data := data }) [] (live_new { data := data })
+  have hv : view (newMR { data := data }) [] = .ok d := (view_new { data := data }).trans hd
+  have hinv := inv_run (ns.map .read) _ (inv_new { data := data })
+  have hft : (MR.run (newMR { data := data }) (ns.map .read)).1.ftag = none := by
+    have := run_ftag (ns.map .read) (newMR { data := data }) { data := data } rfl
+    rw [this]
+    have hl : ∀ (ns : List Nat) (src : Src), lastSrc src (ns.map .read) = src := by
+      intro ns; induction ns with
+      | nil => intro src; rfl
+      | cons n ns ih => intro src; simp [lastSrc, ih]
+    rw [hl]; rfl
+  cases he : (MR.run (newMR { data := data }) (ns.map .read)).1.err with
+  | none =>
+    obtain ⟨_, v⟩ := sp.live he
+    rw [hv] at v
+    have p1 := view_prefix _ _ d v
+    have p2 := run_reads_progress ns _ hpos he
+    have := p1.length_le
+    simp only [List.nil_append] at this
+    omega
+  | some e =>
+    cases e with
+    | eof => rfl
+    | ueof => have := sp.ueof he; rw [hv] at this; cases this
+    | corrupt => obtain ⟨w, hw⟩ := sp.corr he; rw [hv] at hw; cases hw
+    | closed =>
+      have h1 := hinv.closed_done he
+      rw [run_reads_done] at h1
+      cases h1
+    | fault t => have := hinv.fault_tag t he; rw [hft] at this; cases this
+    | nilDeref => exact absurd he hinv.no_panic
+
+theorem reads_total (data : List UInt8) (d : Decoded) (hd : decode data = .ok d) (ns : List Nat)
+    (hpos : ∀ n ∈ ns, 0 < n) (hlen : d.payload.length < ns.length) :
+    let r := MR.run (newMR { data := data }) (ns.map .read)
+    r.1.err = some .eof ∧ dataOf r.2 = d.payload ∧ r.1.finalMode = d.final ∧ r.1.inOff = d.consumed ∧
+    r.1.nblk = d.blocks ∧ r.1.rest = (Bits.ofBytes data).drop (8 * d.consumed) := by
+  intro r
+  have he := reads_reach_eof data d hd ns hpos hlen
+  obtain ⟨d1, e1, e2, e3⟩ := (delivers_decode { data := data } ns).1 he
+  obtain ⟨d2, e1', e4, e5, e6, _⟩ := (exact { data := data } ns).2 he
+  have hav : ({ data := data } : Src).avail = data := rfl
+  rw [hav, hd] at e1 e1'
+  cases e1; cases e1'
+  exact ⟨he, e2, e3, e4, e5, e6⟩
+
 /-- reading what the encoder wrote. -/
 theorem reads_encoded (payload : List UInt8) (final : FinalMode) (ns : List Nat) :
     ∃ blocks, encode payload final = some blocks ∧
